@@ -950,7 +950,9 @@ Inductive fstep :=
 | FGetAny (names : list str)               (* seq.fts.get([names]) *)
 | FSelect (name : str)                     (* seq.fts.select(name) *)
 | FSelectAny (names : list str)            (* seq.fts.select([names]) *)
-| FBasket (ix : rawbidx) (u : bool) (sp fi gap : option str).    (* BioBasket(all objects)[ix] / .rc(update_fts=u): every object *)
+| FBasket (ix : rawbidx) (u : bool) (sp fi gap : option str)     (* BioBasket(all objects)[ix] / .rc(update_fts=u): every object *)
+| FAllGet (name : str)                     (* BioBasket(all objects).fts.get(name), seq.py:740-749: the features of all sequences in basket order *)
+| FAllSelect (name : str).                 (* BioBasket(all objects).fts.select(name) *)
 
 Definition basket_ok (qs : list belem) (bx : bindex) (u : bool) (gap : option str) : bool :=
   forallb (fun e => state_ok gap (snd e)) qs &&
@@ -976,6 +978,8 @@ Definition fstep_run (qs : list bioseq) (obj : nat) (st : fstep) : bool * val * 
       | FGetAny names => (forallb ascii_str names, opt_show (find (type_in names) (sfts q)), qs)
       | FSelect name => (ascii_str name, VL (map show_ft (fts_select name (sfts q))), qs)
       | FSelectAny names => (forallb ascii_str names, VL (map show_ft (filter (type_in names) (sfts q))), qs)
+      | FAllGet name => (ascii_str name, opt_show (fts_get name (flat_map sfts qs)), qs)
+      | FAllSelect name => (ascii_str name, VL (map show_ft (fts_select name (flat_map sfts qs))), qs)
       | FBasket ix u sp fi gap =>
           match build_bidx ix with
           | Err e => (false, VE e, qs)
